@@ -39,7 +39,7 @@ func (m *omap) len() int {
 // comparison (so that it cannot be hashed).
 func isSymbolic(v value) bool {
 	switch v := v.(type) {
-	case sym, symstr:
+	case sym, symstr, opaqueStr:
 		return true
 	case iface:
 		return isSymbolic(v.v)
